@@ -253,7 +253,7 @@ func (ge *gen) ecdsa(oracle bool) Case {
 		return mk("ecdsa", "degenerate", oracle, pk, der(r, s), msg)
 	}
 	sig := der(r, s)
-	cls := g.Intn(34)
+	cls := g.Intn(37)
 	switch cls {
 	case 0, 1, 2, 3:
 		return mk("ecdsa", "valid", oracle, pk, sig, msg)
@@ -422,6 +422,35 @@ func (ge *gen) ecdsa(oracle bool) Case {
 		return mk("ecdsa", "s-plus-n", oracle, pk, derRaw(derInt(r), sb), msg)
 	case 32: // integers with the top bit set and no padding (lax: unsigned)
 		return mk("ecdsa", "unsigned-int", oracle, pk, derRaw(be32(r), be32(s)), msg)
+	case 34, 35, 36:
+		// algebraic triple with a SMALL s (s + n still fits in 256 bits): choose s, solve the message
+		// m = s*k - r*d (mod n). (r, s) is valid; (r, s+n) has s in [n, 2^256) and must be refused even by
+		// a range guard that only looks at the bit length.
+		lim := new(big.Int).Sub(new(big.Int).Lsh(big.NewInt(1), 256), refN) // 2^256 - n
+		var ss *big.Int
+		switch g.Intn(4) {
+		case 0:
+			ss = big.NewInt(1 + int64(g.Intn(1000)))
+		case 1:
+			ss = new(big.Int).Sub(lim, big.NewInt(1+int64(g.Intn(3)))) // s+n = 2^256-1, -2, -3
+		default:
+			ss = new(big.Int).Mod(new(big.Int).SetBytes(g.Bytes(16)), lim)
+			if ss.Sign() == 0 {
+				ss.SetInt64(1)
+			}
+		}
+		mm := new(big.Int).Mul(ss, k)
+		mm.Sub(mm, new(big.Int).Mul(r, d))
+		mm.Mod(mm, refN)
+		sn := new(big.Int).Add(ss, refN)
+		switch cls {
+		case 34:
+			return mk("ecdsa", "small-s-valid", oracle, pk, der(r, ss), be32(mm))
+		case 35: // canonical DER of s+n (33 bytes with the 00 pad)
+			return mk("ecdsa", "small-s-plus-n", oracle, pk, der(r, sn), be32(mm))
+		default: // 32 unsigned bytes, no pad
+			return mk("ecdsa", "small-s-plus-n", oracle, pk, derRaw(derInt(r), be32(sn)), be32(mm))
+		}
 	default: // random bytes everywhere
 		return mk("ecdsa", "random", oracle, g.Bytes(g.Pick(33, 65)), g.Bytes(8+g.Intn(70)), msg)
 	}
@@ -683,6 +712,35 @@ func (ge *gen) sign(oracle bool) Case {
 		sec = g.Bytes(g.Pick(16, 31, 33)) // SetBytes takes any length; reduced mod n by the arithmetic
 		if new(big.Int).Mod(new(big.Int).SetBytes(sec), refN).Sign() == 0 {
 			sec = []byte{1}
+		}
+	}
+	switch g.Intn(8) {
+	case 0, 1:
+		// S with leading zero bytes whose first significant byte is >= 0x80 (DER needs the 00 pad although
+		// the integer is shorter than 32 bytes): choose the target s, solve m = s*k - r*d (mod n).
+		d := new(big.Int).Mod(new(big.Int).SetBytes(sec), refN)
+		k := ge.scalar()
+		R := refMul(k, refG())
+		rr := new(big.Int).Mod(R.x, refN)
+		sb := g.Bytes(31 - g.Intn(3))
+		sb[0] |= 0x80
+		ss := new(big.Int).SetBytes(sb)
+		m := new(big.Int).Mul(ss, k)
+		m.Sub(m, new(big.Int).Mul(rr, d))
+		m.Mod(m, refN)
+		return mk("sign", "short-s", oracle, sec, be32(m), be32(k))
+	case 2:
+		// R with a leading zero byte and the next byte >= 0x80: walk k, k+1, … until x(kG) has that shape
+		k := ge.scalar()
+		R := refMul(k, refG())
+		G := refG()
+		for i := 0; i < 6000 && R != nil; i++ {
+			xb := be32(R.x)
+			if xb[0] == 0 && xb[1] >= 0x80 && k.Cmp(refN) < 0 {
+				return mk("sign", "short-r", oracle, sec, ge.msg32(), be32(k))
+			}
+			k = new(big.Int).Add(k, big1)
+			R = refAdd(R, G)
 		}
 	}
 	return mk("sign", "nonce", oracle, sec, ge.msg32(), be32(ge.scalar()))
